@@ -18,12 +18,12 @@ package verifharness
 //   reset
 //   create  <absOk> <chain> <cs> <cons> <EXT sig> <EXT marshalErr>
 //   upgrade <absOk> <chain> <cs> <cons> <EXT sig> <EXT pruneErr> <EXT signerErr> <EXT marshalErr>
-//   toggle  <absOk> <chain> <cs> <cons> <EXT sigOld> <EXT marshalErr>
+//   toggle  <absOk> <chain> <cs> <cons> <EXT sig> <EXT marshalErr>
 //       cs   = nil | wrong | tm:<chainBlank>:<trustOk>:<trusting>:<unbonding>:<drift>:<height>:<specsNil>:<specHasNil>
 //            | bsc:<epoch>:<chainId>:<height>:<extraLen>:<mixZero>:<uncleOk>:<bloomLen>:<nonceLen>:<diffZero>
 //            | eth:<height>:<gasLimit>:<gasUsed>:<bloomLen>:<diffZero> | tss:<addrOk>
 //       cons = nil | wrong | tm | bsc | eth | tss ;  sig = g (signed, coinbase = signer) | m (signed, other coinbase) | f (garbage)
-//       (for a bsc cs of create/upgrade the sig field is an INPUT: it says how the header is sealed)
+//       (for a bsc cs the sig field is an INPUT: it says how the header is sealed)
 //   relayer <absOk> <addrOk> <nChains> <nAddrs> <chainsOk>
 //   xgen <nativeOk> <packetOk> <nC> {<EXT idOk> <chain> <cs>}  <nK> {<chain> <k> {<heightZero> <cons> <consValid> <EXT typeMatch>}}
 //        <nM> {<chain> <k> {<keyEmpty> <valEmpty>}}                      (only directly after reset)
@@ -455,20 +455,9 @@ func (w *c15World) apply(r *Rec, op string) (string, string) {
 		}
 		// EXT
 		store := ck.ClientStore(w.ctx, chain)
-		switch f[0] {
-		case "create", "upgrade":
-			if b, ok := cs.(*bsctypes.ClientState); ok {
-				sig = c15SigClass(b)
-			}
-		case "toggle":
-			sig = "f"
-			safely(func() {
-				if old, found := ck.GetClientState(w.ctx, chain); found {
-					if b, ok := old.(*bsctypes.ClientState); ok {
-						sig = c15SigClass(b)
-					}
-				}
-			})
+		// (since fix e081e86 ToggleClient initialises the NEW client state: the seal class is that of the proposal's state for all three)
+		if b, ok := cs.(*bsctypes.ClientState); ok {
+			sig = c15SigClass(b)
 		}
 		line := ""
 		switch f[0] {
